@@ -14,7 +14,7 @@ git -C /repo archive HEAD | tar -x -C "$W"
 (cd /repo && git diff HEAD) | (cd "$W" && patch -p1 -s >/dev/null 2>&1 || true)
 if ! (cd "$W" && patch -p1 -s < "$PATCH"); then echo "PATCH-FAILED $PATCH"; exit 3; fi
 for p in "${PIDS[@]}"; do
-  out="$(cd /verif && VERIF_REPO="$W" ./check "$p" "$TIER" 2>&1)"; rc=$?
+  out="$(cd "$(dirname "$(dirname "$(readlink -f "$0")")")" && VERIF_REPO="$W" ./check "$p" "$TIER" 2>&1)"; rc=$?
   nv="$(echo "$out" | grep -c '^VIOLATION')"
   echo "$(basename "$(dirname "$PATCH")")/$(basename "$PATCH") $p rc=$rc violations_printed=$nv :: $(echo "$out" | grep -m1 -A1 '^VIOLATION' | tail -1 | cut -c1-220)"
 done
